@@ -317,6 +317,7 @@ func runC12(p *an.Prog, r *an.Run, tier string) {
 
 	// ---- inverse indexes beside the contract's maps (auxindex.go)
 	checkAuxIndexes(p, r)
+	checkKeyOperandTypes(p, r)
 
 	// ---- SetNode keeps peers
 	checkSetNodeKeepsPeers(p, r)
